@@ -787,6 +787,10 @@ func (x *Exec) builtinCall(st *State, b *ssa.Builtin, args []Val, ret ssa.Value,
 			l := st.fresh("chanlen", SInt)
 			st.assume(Ge(l, TZero))
 			_ = a
+			if st.chanLens == nil {
+				st.chanLens = map[string]Term{}
+			}
+			st.chanLens[v.T().S] = l
 			st.set(ret, intVal(l))
 		default:
 			unsupp("len of %s", typeName(v.Typ))
